@@ -750,9 +750,23 @@ impl Mon {
                     let max_fee = w.shadow.get(&crate::ix::fee_state_key()).and_then(|a| fee_state_of(&a.data)).map(|f| w_(&f.liquidation_max_fee)).unwrap_or_else(zero);
                     let prem = one() + rmax(&max_fee, &rq(5, 100));
                     self.r.count(if small { "C10.ended_small_account" } else { "C10.ended_regular_account" });
+                    // finding F9 seen through the close-out exemption: the program leaves deposits in
+                    // isolated-tier banks out of the equity figure that decides whether an account is
+                    // "under five dollars", so an account whose *other* assets are under five dollars
+                    // is closed out (healthy end, no premium limit) although its assets are not
+                    let f9 = {
+                        let iso_pos: Vec<PosIn> = positions(v, aq, true).into_iter().filter(|p| p.bank.config.risk_tier == RiskTier::Isolated && w_(&p.balance.asset_shares) >= one()).collect();
+                        if iso_pos.is_empty() {
+                            false
+                        } else {
+                            let iso = refm::ref_health(&iso_pos, Req::Equity, info.now);
+                            iso.must_error.is_none() && he0.assets.v.clone() - &iso.assets.v + &he0.assets.e + &iso.assets.e < ri(5)
+                        }
+                    };
+                    let f9s = if f9 { "/account-holds-isolated-tier-deposit" } else { "" };
                     if !small {
                         if h1.certainly_pos() {
-                            self.r.violate("C10", "C10/EndLiquidation/health-positive-at-end", format!("account {}: {} (+-{})", ak, show(&h1.v), show(&h1.e)));
+                            self.r.violate("C10", &format!("C10/EndLiquidation/health-positive-at-end{}", f9s), format!("account {}: {} (+-{}); at start: maintenance health {} equity assets {} (+-{}) liabilities {}; at end: equity assets {} liabilities {}; positions at end {}", ak, show(&h1.v), show(&h1.e), show(&h0.v), show(&he0.assets.v), show(&he0.assets.e), show(&he0.liabs.v), show(&he1.assets.v), show(&he1.liabs.v), pos.len()));
                         }
                         let lim = repaid.scale(&prem);
                         let over = seized.sub(&lim);
@@ -763,7 +777,7 @@ impl Mon {
                             for p in positions(v, ap, false) {
                                 parts.push(format!("[tag {} tier {:?} setup {:?} a={} l={}]", p.bank.config.asset_tag, p.bank.config.risk_tier, p.bank.config.oracle_setup, show(&(w_(&p.balance.asset_shares) * w_(&p.bank.asset_share_value))), show(&(w_(&p.balance.liability_shares) * w_(&p.bank.liability_share_value)))));
                             }
-                            self.r.violate("C10", "C10/EndLiquidation/seized-more-than-repaid-plus-premium", format!("account {}: seized {} repaid {} premium {}; assets at start by the reference {} (+-{}), as recorded by the program (assets, liabilities) {:?}; positions at end-time pre-state {}", ak, show(&seized.v), show(&repaid.v), show(&prem), show(&he0.assets.v), show(&he0.assets.e), rec, parts.join(" ")));
+                            self.r.violate("C10", &format!("C10/EndLiquidation/seized-more-than-repaid-plus-premium{}", f9s), format!("account {}: seized {} repaid {} premium {}; assets at start by the reference {} (+-{}), as recorded by the program (assets, liabilities) {:?}; positions at end-time pre-state {}", ak, show(&seized.v), show(&repaid.v), show(&prem), show(&he0.assets.v), show(&he0.assets.e), rec, parts.join(" ")));
                         }
                     }
                     self.r.distinct(&("rcv", small, he0.n_assets.min(5), he0.n_liabs.min(5), (to_f64(&seized.v) > 0.0), (to_f64(&repaid.v) > 0.0)));
